@@ -839,7 +839,7 @@ package pongo2
 //@ func (*tagIfchangedNode).Execute
 //@   at IEvaluator.Evaluate requires {C09} @watched-expressions-in-order arg0 == node.watchedExpr[rangeindex + 1] && arg1 == ctx
 //@   at append[*Value] requires {C09} @current-values-in-order elem == val
-//@   at (*Value).EqualValueTo requires {C09} @previous-against-current-at-the-same-position arg0 == oldVal && arg1 == nowValues[idx]
+//@   at (*Value).EqualValueTo requires {C09} @previous-against-current-at-the-same-position arg0 == state.lastValues[idx] && arg1 == nowValues[idx]
 //@   at (*NodeWrapper).Execute#1 requires {C09} @body-when-changed arg0 == node.thenWrapper && (calls("(*Value).EqualValueTo") == 0 || !lastresult("(*Value).EqualValueTo")) && arg1 == ctx && arg2 == writer
 //@   at (*NodeWrapper).Execute#2 requires {C09} @else-when-unchanged arg0 == node.elseWrapper && calls("(*Value).EqualValueTo") > 0 && lastresult("(*Value).EqualValueTo") && arg1 == ctx && arg2 == writer
 //@   at TemplateWriter.Write requires {C09} @content-printed-only-when-it-differs !lastresult("bytes.Equal") && arg0 == writer
